@@ -542,7 +542,7 @@ func c06ApplyPre(cred c06Cred, m c06Mut) (c06Cred, bool) {
 		}
 		cred.Basic = &b
 		return cred, true
-	case "sig_secret", "sig_key", "sig_off", "sig_body", "sig_scopes":
+	case "sig_secret", "sig_key", "sig_off", "sig_body", "sig_scopes", "sig_cred":
 		if cred.Sig == nil {
 			return cred, true
 		}
@@ -552,6 +552,8 @@ func c06ApplyPre(cred c06Cred, m c06Mut) (c06Cred, bool) {
 			s.Secret = m.V
 		case "sig_key":
 			s.Key = m.V
+		case "sig_cred": // key id V with secret Name
+			s.Key, s.Secret = m.V, m.Name
 		case "sig_off":
 			s.OffS = int64(m.Pos)
 		case "sig_body":
